@@ -267,6 +267,7 @@ func (n *Tree[V]) delNode(path string, matcher ValueMatcher[V]) bool {
 		// The token starts with a character escaped by a backslash. Drop the backslash.
 		token = path[1]
 		path = path[1:]
+		pathLen = len(path)
 	}
 
 	for i, staticIndex := range n.staticIndices {
